@@ -244,33 +244,33 @@ theorem kindOf_required (kvs : Entries) (h : lookup (c!"kind") kvs = none) :
 
 /-! ### `appenders_lossy` is compositional -/
 
-theorem appendersLossy_append (xs ys : List (Key × Typed)) :
-    appendersLossy (xs ++ ys) =
-      match appendersLossy xs with
+theorem appendersLossy_append (env : Env) (xs ys : List (Key × Typed)) :
+    appendersLossy env (xs ++ ys) =
+      match appendersLossy env xs with
       | .ok (d1, e1) =>
-        (match appendersLossy ys with
+        (match appendersLossy env ys with
          | .ok (d2, e2) => .ok (d1 ++ d2, e1 ++ e2)
          | o => o)
       | o => o := by
   induction xs with
   | nil =>
     simp only [List.nil_append, appendersLossy]
-    cases appendersLossy ys with
+    cases appendersLossy env ys with
     | ok p => obtain ⟨d2, e2⟩ := p; simp
     | err e => rfl
     | panic w => rfl
   | cons x xs ih =>
     obtain ⟨name, t⟩ := x
     simp only [List.cons_append, appendersLossy]
-    rcases hao : appenderOutcome name t with ⟨errs, r⟩
+    rcases hao : appenderOutcome env name t with ⟨errs, r⟩
     cases r with
     | panic w => simp
     | kept d =>
       simp only [ih]
-      cases appendersLossy xs with
+      cases appendersLossy env xs with
       | ok p =>
         obtain ⟨d1, e1⟩ := p
-        cases appendersLossy ys with
+        cases appendersLossy env ys with
         | ok q => obtain ⟨d2, e2⟩ := q; simp
         | err e => simp
         | panic w => simp
@@ -278,37 +278,37 @@ theorem appendersLossy_append (xs ys : List (Key × Typed)) :
       | panic w => simp
     | dropped =>
       simp only [ih]
-      cases appendersLossy xs with
+      cases appendersLossy env xs with
       | ok p =>
         obtain ⟨d1, e1⟩ := p
-        cases appendersLossy ys with
+        cases appendersLossy env ys with
         | ok q => obtain ⟨d2, e2⟩ := q; simp
         | err e => simp
         | panic w => simp
       | err e => simp
       | panic w => simp
 
-theorem appendersLossy_no_err (xs : List (Key × Typed)) : ∀ e, appendersLossy xs ≠ .err e := by
+theorem appendersLossy_no_err (env : Env) (xs : List (Key × Typed)) :
+    ∀ e, appendersLossy env xs ≠ .err e := by
   induction xs with
   | nil => intro e; simp [appendersLossy]
   | cons x xs ih =>
     intro e
     obtain ⟨name, t⟩ := x
     simp only [appendersLossy]
-    rcases appenderOutcome name t with ⟨errs, r⟩
+    rcases appenderOutcome env name t with ⟨errs, r⟩
     cases r with
     | panic w => simp
     | kept d =>
-      cases h : appendersLossy xs with
+      cases h : appendersLossy env xs with
       | ok p => simp
       | err e' => exact absurd h (ih e')
       | panic w => simp
     | dropped =>
-      cases h : appendersLossy xs with
+      cases h : appendersLossy env xs with
       | ok p => simp
       | err e' => exact absurd h (ih e')
       | panic w => simp
-
 
 theorem interp_struct_ok (ss deny : Bool) (fields : List Field) (kvs : Entries) (t : Typed)
     (h : interp ss (.struct deny fields) (.map kvs) = .ok t) :
@@ -398,7 +398,7 @@ theorem interpFields_congr (ss : Bool) (fields : List Field) (kvs kvs' : Entries
     obtain ⟨k, d, s⟩ := f
     simp only [interpFields, h k, ih]
 
-/-! ### panic freedom of the constructors inside the safe range -/
+/-! ### the time trigger's constructor -/
 
 def timeSafe (_u : TUnit) (n : Int) (modulate : Bool) (delay : Nat) : Bool :=
   !(modulate && n == 0) && decide (n.toNat ≤ TIME_SAFE) && decide (delay ≤ TIME_SAFE)
@@ -424,220 +424,85 @@ theorem timeTriggerNewWith_safe (total : Bool) (u : TUnit) (n : Int) (m : Bool) 
   | true => simp
   | false => rw [if_neg (by simp), if_neg hz, if_neg hs, if_pos ⟨h2, h3⟩]; simp
 
-theorem timeTriggerNew_safe (u : TUnit) (n : Int) (m : Bool) (d : Nat) (h : timeSafe u n m d = true) :
-    ∀ w, timeTriggerNew u n m d ≠ .panic w :=
-  timeTriggerNewWith_safe _ u n m d h
-
 /-- the repaired constructor is total: no configuration makes it panic -/
 theorem timeTriggerNewWith_total (u : TUnit) (n : Int) (m : Bool) (d : Nat) :
     timeTriggerNewWith true u n m d = .ok () := by
   simp [timeTriggerNewWith]
 
-def triggerSafe : Typed → Bool
-  | .tagged kind _ body =>
-    if kind = c!"time" then
-      match body.field (c!"interval") with
-      | some (.interval u n) =>
-        timeSafe u n ((Typed.asBool (body.field (c!"modulate"))).getD false)
-          ((Typed.asNat (body.field (c!"max_random_delay"))).getD 0)
-      | _ => true
-    else true
-  | _ => true
+/-! ### panics of loading come from the environment only -/
 
-def policySafe : Typed → Bool
-  | .tagged _ _ body =>
-    match body.field (c!"trigger") with
-    | some t => triggerSafe t
-    | none => true
-  | _ => true
+theorem andThen_no_panic {ε α β} (o : Outcome ε α) (f : α → Outcome ε β)
+    (ho : ∀ w, o ≠ .panic w) (hf : ∀ a w, f a ≠ .panic w) : ∀ w, Outcome.andThen o f ≠ .panic w := by
+  intro w
+  cases o with
+  | ok a => exact hf a w
+  | err e => simp [Outcome.andThen]
+  | panic w' => exact absurd rfl (ho w')
 
-/-- every time trigger the appender's constructor would build has a count that is not 0 under
-`modulate`, and count and delay at most `TIME_SAFE` -/
-def appenderSafe : Typed → Bool
-  | .tagged _ _ body =>
-    match body.field (c!"policy") with
-    | some p => policySafe p
-    | none => true
-  | _ => true
+theorem constructEncoder_np (env : Env) (henv : env.NoPanic) (enc : Option Typed) :
+    ∀ w, constructEncoder env enc ≠ .panic w := by
+  intro w
+  unfold constructEncoder
+  split
+  · split
+    · simp
+    · exact andThen_no_panic _ _ (henv.2.1 _) (fun _ w => by simp) w
+  · exact andThen_no_panic _ _ (henv.2.1 _) (fun _ w => by simp) w
 
-theorem constructTrigger_safe (t : Typed) (h : triggerSafe t = true) :
-    ∀ w, constructTrigger t ≠ .panic w := by
+theorem constructTrigger_np (env : Env) (henv : env.NoPanic) (t : Typed) :
+    ∀ w, constructTrigger env t ≠ .panic w := by
   intro w
   unfold constructTrigger
-  unfold triggerSafe at h
   split
-  · rename_i kind ex body
-    simp only at h
-    by_cases hk : kind = c!"time"
-    · simp only [hk, if_true] at h ⊢
-      split
-      · rename_i u n hi
-        simp only [hi] at h
-        exact timeTriggerNew_safe _ _ _ _ h w
+  · split
+    · split
+      · exact andThen_no_panic _ _ (henv.2.2 _ _ _ _) (fun _ w => by simp) w
       · simp
-    · simp [hk]
+    · split <;> simp
   · simp
 
-theorem constructRoller_no_panic (t : Typed) : ∀ w, constructRoller t ≠ .panic w := by
+theorem constructRoller_np (t : Typed) : ∀ w, constructRoller t ≠ .panic w := by
   intro w
   unfold constructRoller
   split
   · split
-    · split
-      · split
-        · simp only; split <;> simp
-        · simp
+    · simp only
+      split
       · simp
+      · split <;> simp
     · simp
   · simp
 
-theorem constructPolicy_safe (p : Typed) (h : policySafe p = true) :
-    ∀ w, constructPolicy p ≠ .panic w := by
+theorem constructPolicy_np (env : Env) (henv : env.NoPanic) (p : Option Typed) :
+    ∀ w, constructPolicy env p ≠ .panic w := by
   intro w
   unfold constructPolicy
-  unfold policySafe at h
   split
-  · rename_i k ex body
-    simp only at h
-    cases ht : body.field (c!"trigger") with
-    | none =>
-      simp only
-      cases hr : body.field (c!"roller") with
-      | none => simp
-      | some r => exact constructRoller_no_panic r w
-    | some t =>
-      simp only [ht] at h
-      simp only
-      cases hc : constructTrigger t with
-      | panic w' => exact absurd hc (constructTrigger_safe t h w')
-      | err e => simp
-      | ok u =>
-        cases hr : body.field (c!"roller") with
-        | none => simp
-        | some r => exact constructRoller_no_panic r w
+  · refine andThen_no_panic _ _ ?_ (fun td w => andThen_no_panic _ _ ?_ (fun _ w => by simp) w) w
+    · intro w; split
+      · exact constructTrigger_np env henv _ w
+      · simp
+    · intro w; split
+      · exact constructRoller_np _ w
+      · simp
   · simp
 
-theorem constructAppender_safe (name : Key) (levels : List Nat) (kind : Key) (body : Typed)
-    (h : (match body.field (c!"policy") with | some p => policySafe p | none => true) = true) :
-    ∀ w, constructAppender name levels kind body ≠ .panic w := by
+theorem constructAppender_np (env : Env) (henv : env.NoPanic) (name : Key) (levels : List Nat)
+    (kind : Key) (body : Typed) : ∀ w, constructAppender env name levels kind body ≠ .panic w := by
   intro w
   unfold constructAppender
-  simp only
+  refine andThen_no_panic _ _ (constructEncoder_np env henv _) ?_ w
+  intro enc w
   split
   · simp
-  · split
-    · split <;> simp
-    · cases hp : body.field (c!"policy") with
-      | none => simp only; split <;> simp
-      | some p =>
-        simp only [hp] at h
-        simp only
-        cases hc : constructPolicy p with
-        | panic w' => exact absurd hc (constructPolicy_safe p h w')
-        | err e => simp
-        | ok u => simp only; split <;> simp
-
-theorem appenderOutcome_safe (name : Key) (t : Typed) (h : appenderSafe t = true) :
-    ∀ w, (appenderOutcome name t).2 ≠ .panic w := by
-  intro w
-  unfold appenderOutcome
-  split
-  · rename_i kind extras body
-    unfold appenderSafe at h
-    simp only at h
-    simp only
+  · simp only
     split
-    · simp
-    · cases hc : constructAppender name
-          ((Typed.asList (tlookup (c!"filters") extras)).filterMap filterOutcome) kind body with
-      | panic w' => exact absurd hc (constructAppender_safe name _ kind body h w')
-      | err e => simp
-      | ok d => simp
-  · simp
+    · exact andThen_no_panic _ _ (henv.1 _) (fun _ w => by simp) w
+    · exact andThen_no_panic _ _ (constructPolicy_np env henv _)
+        (fun _ w => andThen_no_panic _ _ (henv.1 _) (fun _ w => by simp) w) w
 
-theorem appendersLossy_safe (xs : List (Key × Typed)) (h : ∀ nt ∈ xs, appenderSafe nt.2 = true) :
-    ∀ w, appendersLossy xs ≠ .panic w := by
-  induction xs with
-  | nil => intro w; simp [appendersLossy]
-  | cons x xs ih =>
-    intro w
-    obtain ⟨name, t⟩ := x
-    have h1 := appenderOutcome_safe name t (h (name, t) (List.mem_cons_self))
-    have h2 := ih (fun nt hnt => h nt (List.mem_cons_of_mem _ hnt))
-    simp only [appendersLossy]
-    rcases hao : appenderOutcome name t with ⟨errs, r⟩
-    rw [hao] at h1
-    cases r with
-    | panic w' => exact absurd rfl (h1 w')
-    | kept d =>
-      cases hr : appendersLossy xs with
-      | ok p => simp
-      | err e => simp
-      | panic w' => exact absurd hr (h2 w')
-    | dropped =>
-      cases hr : appendersLossy xs with
-      | ok p => simp
-      | err e => simp
-      | panic w' => exact absurd hr (h2 w')
-
-/-! ### the same chain when NO trigger constructor can panic (after the repairs) -/
-
-theorem constructTrigger_total (hT : ∀ u n m d w, timeTriggerNew u n m d ≠ .panic w) (t : Typed) :
-    ∀ w, constructTrigger t ≠ .panic w := by
-  intro w
-  unfold constructTrigger
-  split
-  · split
-    · split
-      · exact hT _ _ _ _ w
-      · simp
-    · simp
-  · simp
-
-theorem constructPolicy_total (hT : ∀ u n m d w, timeTriggerNew u n m d ≠ .panic w) (p : Typed) :
-    ∀ w, constructPolicy p ≠ .panic w := by
-  intro w
-  unfold constructPolicy
-  split
-  · rename_i k ex body
-    cases ht : body.field (c!"trigger") with
-    | none =>
-      simp only
-      cases hr : body.field (c!"roller") with
-      | none => simp
-      | some r => exact constructRoller_no_panic r w
-    | some t =>
-      simp only
-      cases hc : constructTrigger t with
-      | panic w' => exact absurd hc (constructTrigger_total hT t w')
-      | err e => simp
-      | ok u =>
-        cases hr : body.field (c!"roller") with
-        | none => simp
-        | some r => exact constructRoller_no_panic r w
-  · simp
-
-theorem constructAppender_total (hT : ∀ u n m d w, timeTriggerNew u n m d ≠ .panic w)
-    (name : Key) (levels : List Nat) (kind : Key) (body : Typed) :
-    ∀ w, constructAppender name levels kind body ≠ .panic w := by
-  intro w
-  unfold constructAppender
-  simp only
-  split
-  · simp
-  · split
-    · split <;> simp
-    · cases hp : body.field (c!"policy") with
-      | none => simp only; split <;> simp
-      | some p =>
-        simp only
-        cases hc : constructPolicy p with
-        | panic w' => exact absurd hc (constructPolicy_total hT p w')
-        | err e => simp
-        | ok u => simp only; split <;> simp
-
-theorem appenderOutcome_total (hT : ∀ u n m d w, timeTriggerNew u n m d ≠ .panic w)
-    (name : Key) (t : Typed) : ∀ w, (appenderOutcome name t).2 ≠ .panic w := by
+theorem appenderOutcome_np (env : Env) (henv : env.NoPanic) (name : Key) (t : Typed) :
+    ∀ w, (appenderOutcome env name t).2 ≠ .panic w := by
   intro w
   unfold appenderOutcome
   split
@@ -645,36 +510,63 @@ theorem appenderOutcome_total (hT : ∀ u n m d w, timeTriggerNew u n m d ≠ .p
     simp only
     split
     · simp
-    · cases hc : constructAppender name
+    · cases hc : constructAppender env name
           ((Typed.asList (tlookup (c!"filters") extras)).filterMap filterOutcome) kind body with
-      | panic w' => exact absurd hc (constructAppender_total hT name _ kind body w')
+      | panic w' => exact absurd hc (constructAppender_np env henv name _ kind body w')
       | err e => simp
       | ok d => simp
   · simp
 
-theorem appendersLossy_total (hT : ∀ u n m d w, timeTriggerNew u n m d ≠ .panic w)
-    (xs : List (Key × Typed)) : ∀ w, appendersLossy xs ≠ .panic w := by
+theorem appendersLossy_np (env : Env) (henv : env.NoPanic) (xs : List (Key × Typed)) :
+    ∀ w, appendersLossy env xs ≠ .panic w := by
   induction xs with
   | nil => intro w; simp [appendersLossy]
   | cons x xs ih =>
     intro w
     obtain ⟨name, t⟩ := x
-    have h1 := appenderOutcome_total hT name t
+    have h1 := appenderOutcome_np env henv name t
     simp only [appendersLossy]
-    rcases hao : appenderOutcome name t with ⟨errs, r⟩
+    rcases hao : appenderOutcome env name t with ⟨errs, r⟩
     rw [hao] at h1
     cases r with
     | panic w' => exact absurd rfl (h1 w')
     | kept d =>
-      cases hr : appendersLossy xs with
+      cases hr : appendersLossy env xs with
       | ok p => simp
       | err e => simp
       | panic w' => exact absurd hr (ih w')
     | dropped =>
-      cases hr : appendersLossy xs with
+      cases hr : appendersLossy env xs with
       | ok p => simp
       | err e => simp
       | panic w' => exact absurd hr (ih w')
+
+theorem realEnv_noPanic : realEnv.NoPanic := by
+  refine ⟨?_, ?_, ?_⟩
+  · intro p w; simp only [realEnv]; split <;> simp
+  · intro s w; simp [realEnv]
+  · intro u n m d w
+    show timeTriggerNewWith timeTriggerTotal u n m d ≠ .panic w
+    rw [show timeTriggerTotal = true from rfl, timeTriggerNewWith_total]
+    simp
+
+theorem interp_mapOf (ss : Bool) (s : Schema) (kvs : Entries) :
+    interp ss (.mapOf s) (.map kvs) =
+      match mapEntries (fun v => interp ss s v) kvs with
+      | .ok ts => .ok (.dict ts)
+      | .error e => .error e := by
+  simp only [interp]
+  generalize mapEntries (fun v => interp ss s v) kvs = R
+  cases R <;> rfl
+
+theorem interp_seqOf (ss : Bool) (s : Schema) (xs : List Value) :
+    interp ss (.seqOf s) (.seq xs) =
+      match mapVals (fun v => interp ss s v) xs with
+      | .ok ts => .ok (.list ts)
+      | .error e => .error e := by
+  simp only [interp]
+  generalize mapVals (fun v => interp ss s v) xs = R
+  cases R <;> rfl
 
 /-! ### lazily typed values never fail -/
 
